@@ -38,13 +38,33 @@ func TestVerifC06HeteroNUMA(t *testing.T) {
 		// capacity per NUMA node: cpu everywhere, the others on an arbitrary subset of the NUMA nodes (possibly none, possibly all)
 		capacity := make([]map[corev1.ResourceName]int64, topo.NumNodes) // in the unit of Quantity.Value() (cpu: milli)
 		hetero := false
+		// which NUMA nodes the NodeResourceTopology reports at all (zones): any non-empty subset, listed in ascending id order as
+		// extractNUMANodeResources does - so the position in the list differs from the NUMA id when a lower id is missing
+		reported := make([]bool, topo.NumNodes)
+		anyReported, idNePos := false, false
+		for i := range reported {
+			reported[i] = rapid.IntRange(0, 3).Draw(t, "zoneReported") > 0
+			anyReported = anyReported || reported[i]
+		}
+		if !anyReported {
+			reported[rapid.IntRange(0, topo.NumNodes-1).Draw(t, "zoneOne")] = true
+		}
+		for i, pos := 0, 0; i < topo.NumNodes; i++ {
+			if reported[i] {
+				idNePos = idNePos || i != pos
+				pos++
+			}
+		}
 		for i := range capacity {
-			capacity[i] = map[corev1.ResourceName]int64{corev1.ResourceCPU: int64(topo.CPUsPerNode()) * 1000}
+			capacity[i] = map[corev1.ResourceName]int64{}
+			if reported[i] {
+				capacity[i][corev1.ResourceCPU] = int64(topo.CPUsPerNode()) * 1000
+			}
 		}
 		for _, rn := range names[1:] {
 			have := 0
 			for i := range capacity {
-				if rapid.Bool().Draw(t, "reports") {
+				if reported[i] && rapid.Bool().Draw(t, "reports") {
 					capacity[i][rn] = rapid.Int64Range(0, 16).Draw(t, "capacity")
 					have++
 				}
@@ -59,6 +79,9 @@ func TestVerifC06HeteroNUMA(t *testing.T) {
 		tom.UpdateTopologyOptions(nodeName, func(o *TopologyOptions) {
 			o.CPUTopology = topo
 			for i := range capacity {
+				if !reported[i] {
+					continue
+				}
 				rl := corev1.ResourceList{}
 				for rn, v := range capacity[i] {
 					managed[rn] = true
@@ -220,6 +243,7 @@ func TestVerifC06HeteroNUMA(t *testing.T) {
 			}
 		}
 		c.ClassIf(hetero, "numa-nodes-report-different-resource-sets")
+		c.ClassIf(idNePos, "reported-numa-ids-differ-from-list-positions")
 		c.ClassIf(sawLackingHint, "hint-names-only-numa-nodes-lacking-a-requested-resource")
 		c.ClassIf(sawLackingRefused, "hint-names-only-numa-nodes-lacking-a-requested-resource:refused")
 		c.ClassIf(sawSuccess, "success")
